@@ -38,7 +38,7 @@ from lib import Err, VERIF, case_key, normalize
 ID = "C04"
 COQ_IMPORTS = "From DV Require Import Model.UntrustedM."
 COQ_RUN = "UntrustedM.run"
-CASE_TIMEOUT = 30.0
+CASE_TIMEOUT = 60.0
 IMPL_SECONDS = float(os.environ.get("VERIF_C04_CASE_SECONDS", "5"))
 TRUSTED = [
     "models: coq/Model/ParserM.v (dns/wirebase.py Parser, name.from_wire_parser), coq/Model/UntrustedM.v (ExceptionWrapper, "
@@ -276,6 +276,8 @@ def impl(case):
         return Err(-2, "hang (not re-run: 8 earlier cases already hung)")
     val, exc, hung = P.guarded(lambda: impl1(case), IMPL_SECONDS)
     if hung:
+        val, exc, hung = P.guarded(lambda: impl1(case), IMPL_SECONDS * 4)
+    if hung:
         _hangs[0] += 1
         return Err(-2, "hang")
     if exc is not None:
@@ -399,7 +401,7 @@ def gen_modelled_rdata(rng, rdtype, base_len):
         mac = bytes(rng.randrange(256) for _ in range(rng.choice([0, 16, 32])))
         other = bytes(rng.randrange(256) for _ in range(rng.choice([0, 0, 6])))
         return nm([b"hmac-sha256"]) + struct.pack("!HIH", 0, 1700000000, 300) + struct.pack("!H", len(mac)) + mac + \
-            struct.pack("!HHH", rng.randrange(65536), 0, len(other)) + other
+            struct.pack("!HHH", rng.randrange(65536), rng.choice([0, 0, 0, 16, 17, 18, 4095, 4096, 65535]), len(other)) + other
     return bytes(rng.randrange(256) for _ in range(rng.choice([0, 1, 3, 10])))
 
 
